@@ -5,6 +5,16 @@ ROOT = os.path.dirname(os.path.dirname(os.path.abspath(__file__)))
 TRUST = ("TLC 1.8.0 + CommunityModules; the harness's independent raw-socket codec and recording handlers; bounds as in the "
          "spec/mc/*.cfg named in the evidence; default cargo features plus vhost-kern/vdpa/net/vsock (xen, postcopy excluded)")
 CLAIMS = {
+ "C05": ("exploration", "2/C05",
+   "Grammar-aware hostile inputs are enumerated by TLC (MC_Hostile: per request code, header mutations, size classes, every single violated "
+   "body rule, 0..40 descriptors, fresh/negotiated connection) and written by a raw peer to the real BackendReqHandler (overflow checks "
+   "on); TLC evaluates the reference validity predicates of Validators.tla on every recorded handler call, the prescribed descriptor "
+   "count, rejection of rule violations, and flags panics/hangs.",
+   "TLC-enumerated input grammar + TLC trace validation against Validators.tla / BackendServer.tla"),
+ "C20": ("exploration", "2/C20",
+   "Validators.tla (reference predicates on 16-bit limbs) is evaluated by TLC on the full product of per-field boundary sets (188k points "
+   "quick) and on seeded random points; the crate's is_valid() verdict for each point, built from raw bytes, must agree.",
+   "TLA+ reference predicates evaluated by TLC over an exhaustive boundary lattice (differential testing against the implementation)"),
  "C01": ("exploration", "2/C01",
    "The byte-level oracle is WireFormat.tla (written from the protocol documents, not the Rust structs). Traces recorded by independent raw "
    "peers on all four channels (frontend requests, backend replies/acks, backend-initiated requests and acks, GPU requests/replies) are "
